@@ -287,7 +287,7 @@ def run(report, db, tier):
         ctx = P.ctx(v)
         # ---------------- Position
         inp = make_inputs(pr['fields'])
-        pk = run_packer(F, psend, ctx, psend.params[0],
+        pk = run_packer(F, psend, ctx, psend.all_params[0],
                         Seq([inp['x'], inp['y'], inp['z']]))
         n_runs += 1
         arm = None
@@ -338,7 +338,7 @@ def run(report, db, tier):
                         '(an operation the bit analysis does not interpret); '
                         'nothing decided' % nm, pread.node, rel(pread.path)),
                         retry=lambda ctx=ctx: concrete_witness(
-                            F, ctx, psend, psend.params[0],
+                            F, ctx, psend, psend.all_params[0],
                             lambda d: Seq([d['x'], d['y'], d['z']]), pread,
                             lambda up: result_fields(up.result,
                                                      ['x', 'y', 'z']),
@@ -356,7 +356,7 @@ def run(report, db, tier):
         # ---------------- ChunkSectionPos
         cr = ref['chunk_section_pos']
         inp = make_inputs(cr['fields'])
-        pk = run_packer(F, csend, ctx, csend.params[1],
+        pk = run_packer(F, csend, ctx, csend.all_params[1],
                         Seq([inp['x'], inp['y'], inp['z']]))
         n_runs += 1
         if len(pk.out) != 1:
@@ -396,7 +396,7 @@ def run(report, db, tier):
                         'by bit; nothing decided' % nm, cread.node,
                         rel(cread.path)),
                         retry=lambda ctx=ctx: concrete_witness(
-                            F, ctx, csend, csend.params[1],
+                            F, ctx, csend, csend.all_params[1],
                             lambda d: Seq([d['x'], d['y'], d['z']]), cread,
                             lambda up: result_fields(up.result,
                                                      ['x', 'y', 'z']),
@@ -413,7 +413,7 @@ def run(report, db, tier):
         new = P.index[v] >= P.index[ref['record_new']['since']]
         rr = ref['record_new'] if new else ref['record_old']
         inp = make_inputs(rr['fields'])
-        pk = run_packer(F, rsend, ctx, rsend.params[1], Rec(inp))
+        pk = run_packer(F, rsend, ctx, rsend.all_params[1], Rec(inp))
         n_runs += 1
         codecs = [c for c, _, _ in pk.out]
         words = [w for _, w, _ in pk.out]
@@ -459,7 +459,7 @@ def run(report, db, tier):
                         'Record: the decoded %s is not followed bit by bit; '
                         'nothing decided' % nm, rread.node, rel(rread.path)),
                         retry=lambda ctx=ctx, rr=rr: concrete_witness(
-                            F, ctx, rsend, rsend.params[1],
+                            F, ctx, rsend, rsend.all_params[1],
                             lambda d: Rec(d), rread,
                             lambda up: up.result.attrs if isinstance(
                                 up.result, Rec) else None, rr['fields']),
